@@ -120,6 +120,21 @@ pub struct ModSpec {
     /// Module::reset panics (first reset only)
     #[serde(default)]
     pub reset_panics: bool,
+    /// create this node through a scoped builder block of its grandparent with the relative path "parent.name"
+    #[serde(default)]
+    pub scoped_build: bool,
+}
+
+/// A module block that adds one node below its scope, addressed by a relative (possibly dotted) path.
+pub struct ScopedAdder {
+    pub rel: String,
+    pub module: ScriptMod,
+}
+impl des::net::blocks::ModuleBlock for ScopedAdder {
+    type Ret = ();
+    fn build<A>(self, mut sim: SimBuilderScoped<'_, A>) {
+        sim.node(self.rel.as_str(), self.module);
+    }
 }
 
 #[derive(Debug)]
@@ -941,7 +956,16 @@ pub fn run_net(prog: &NetProgram, opts: &RunOpts) -> NetResult {
             with_ctx(|c| c.building = mi);
             let path = module_path(&prog, mi);
             let r = std::panic::catch_unwind(std::panic::AssertUnwindSafe(|| {
-                sim.node(path.as_str(), ScriptMod { run_id: current_run(), idx: mi, prog: prog.clone(), inc: 0, rx_count: 0, token: crate::bodies::Token::new_opt() });
+                let module = ScriptMod { run_id: current_run(), idx: mi, prog: prog.clone(), inc: 0, rx_count: 0, token: crate::bodies::Token::new_opt() };
+                let par = prog.modules[mi].parent;
+                let grand = if par >= 0 { prog.modules[par as usize].parent } else { -1 };
+                if prog.modules[mi].scoped_build && grand >= 0 {
+                    // scope = grandparent, relative path = "parent.name"
+                    let rel = format!("{}.{}", prog.modules[par as usize].name, prog.modules[mi].name);
+                    sim.node(module_path(&prog, grand as usize).as_str(), ScopedAdder { rel, module });
+                } else {
+                    sim.node(path.as_str(), module);
+                }
             }));
             if r.is_err() {
                 crate::clear_panic();
